@@ -78,20 +78,32 @@ def c05(tier):
     return gs
 
 
-def _np(g):
-    # solve.c compiled with _mzd_pluq / mzd_pluq substituted by the naive routine
-    g.tus = [t for t in g.tus if t != "solve"]
-    g.native_tus = None
-    return g
-
-
 def c06(tier):
     P = ("C06", "C10", "C11", "C12")
+    gs = []
     shapes = [(2, 2, 1), (2, 3, 1), (3, 2, 2), (1, 2, 1)] + ([(3, 3, 2), (2, 4, 1), (4, 2, 1)] if tier == "thorough" else [])
-    return [G("C06", "SOLVE", "mzd_solve_left (on _mzd_pluq_naive)", m, n, P, bw=bw, naive_pluq=True, timeout=1800) for m, n, bw in shapes]
+    for m, n, bw in shapes:
+        for rk in range(0, min(m, n) + 1):
+            gs.append(G("C06", "PLUQ_SOLVE", "mzd_pluq_solve_left", m, n, P, bw=bw, extra={"RK": rk}, timeout=1500,
+                        note="; rank %d enumerated, factorisation (L, U, P, Q) and right-hand side symbolic" % rk))
+    for m, n, bw in ((1, 2, 1), (2, 3, 2), (2, 2, 1), (3, 2, 1)):
+        g = G("C06", "SOLVE_PAD", "_mzd_solve_left (padding rows of B; factorisation stubbed)", m, n, P, bw=bw, timeout=900,
+              note="; _mzd_pluq replaced by a rank-0 stub (the padding obligation does not depend on the factorisation)")
+        g.tus = [x if x != "solve" else "solve|-D_mzd_pluq=vp_stub_pluq0" for x in g.tus]
+        g.native_tus = []
+        gs.append(g)
+    return gs
 
 
 def c07(tier):
     P = ("C07", "C10", "C12")
-    shapes = [(2, 3), (3, 3), (3, 2)] + ([(2, 5), (4, 3)] if tier == "thorough" else [])
-    return [G("C07", "KERNEL", "mzd_kernel_left_pluq (on _mzd_pluq_naive)", m, n, P, naive_pluq=True, timeout=1800) for m, n in shapes]
+    gs = []
+    shapes = [(2, 3), (3, 3), (3, 2)] + ([(2, 5), (4, 3), (3, 66)] if tier == "thorough" else [])
+    for m, n in shapes:
+        for rk in range(0, min(m, n) + 1):
+            g = G("C07", "KERNEL", "mzd_kernel_left_pluq (factorisation of concrete rank handed in)", m, n, P, extra={"RK": rk}, timeout=1500,
+                  note="; mzd_pluq replaced by a stub returning the harness-constructed factorisation of rank %d" % rk)
+            g.tus = [x if x != "solve" else "solve|-Dmzd_pluq=vp_stub_pluq_given" for x in g.tus]
+            g.native_tus = []
+            gs.append(g)
+    return gs
